@@ -204,7 +204,14 @@ fn fetch_sched(case: &Value) -> Value {
         let mut steps = vec![];
         for st in case["steps"].as_array().expect("steps") {
             let (pre_p, pre_o) = dump(&fetcher);
+            let pre_far = fetcher.farthest_acceptable_distance().map(|d| d.to_string());
             let out = match st["s"].as_str().expect("step kind") {
+                // the record store is full: its farthest record key (or nothing held)
+                "full" => {
+                    let key = if st["key"].is_null() { None } else { Some(RecordKey::new(&hexb(&st["key"]))) };
+                    fetcher.set_farthest_on_full(key);
+                    vec![]
+                }
                 "add" => {
                     let keys: Vec<(NetworkAddress, RecordType)> = st["keys"]
                         .as_array()
@@ -226,7 +233,9 @@ fn fetch_sched(case: &Value) -> Value {
                 .iter()
                 .map(|(h, k)| json!([hex::encode(h.to_bytes()), hex::encode(k.as_ref())]))
                 .collect();
-            steps.push(json!({"pre_p": pre_p, "pre_o": pre_o, "out": out, "post_p": post_p, "post_o": post_o}));
+            let post_far = fetcher.farthest_acceptable_distance().map(|d| d.to_string());
+            steps.push(json!({"pre_p": pre_p, "pre_o": pre_o, "pre_far": pre_far, "out": out,
+                              "post_p": post_p, "post_o": post_o, "post_far": post_far}));
         }
         json!({"steps": steps, "max_parallel": max_parallel})
     })
